@@ -402,7 +402,10 @@ class BaseTrigger(ABC):
             invocation_id=invocation.invocation_id,
             arguments=invocation.call.arguments,
             disable_cache_args=invocation.call.task.conf.disable_cache_args,
-            status=invocation.status,
+            # get status directly from orchestrator to avoid caching
+            status=self.app.orchestrator.get_invocation_status(
+                invocation.invocation_id
+            ),
             exception_type=type(exception).__name__,
             exception_message=str(exception),
         )
